@@ -463,6 +463,7 @@ func (v *PacketDslVisitorImpl) VisitMatchFieldDeclaration(ctx *gen.MatchFieldDec
 			})
 			continue
 		}
+		pairsMap[pair.Key] = struct{}{}
 	}
 	return &model.Field{
 		Name:     matchName,
